@@ -119,9 +119,14 @@ func (it *NativeIterator) Merge(oldval []byte) (val []byte, err error) {
 	oldTS := h.Timestamp
 	newTS := header.Timestamp(entry.TimestampNano)
 	actualOldVal := appVal
+	// A deletion marker and a live entry with an empty value have the same
+	// (empty) app value, so the deleted state needs to be compared separately.
+	oldDeleted := h.Flags.IsDeleted()
+	newDeleted := entry.MaskedFlags().IsDeleted() ||
+		(len(entryVal) == 0 && it.FormatVersion < 2)
 	if newTS == 0 {
 		// Special handling for main to shadow copy that uses a default timestamp
-		if bytes.Equal(actualOldVal, entryVal) {
+		if bytes.Equal(actualOldVal, entryVal) && oldDeleted == newDeleted {
 			return oldval, nil // do not update timestamp
 		}
 		newTS = it.DefaultTimestampNano
@@ -130,10 +135,15 @@ func (it *NativeIterator) Merge(oldval []byte) (val []byte, err error) {
 		// Current LMDB value has a higher timestamp, so keep that one
 		return oldval, nil
 	}
-	if newTS == oldTS && bytes.Compare(actualOldVal, entryVal) <= 0 {
+	if newTS == oldTS {
 		// Same timestamp, lexicographic lower app value wins for deterministic values,
 		// so return the old value if the plain value was lower or equal.
-		return oldval, nil
+		// For equal values the deleted one wins, independent of which one we
+		// happen to have stored, or instances would never converge.
+		cmp := bytes.Compare(actualOldVal, entryVal)
+		if cmp < 0 || (cmp == 0 && (oldDeleted || !newDeleted)) {
+			return oldval, nil
+		}
 	}
 	// Update LMDB value
 	return it.addHeader(entryVal, newTS, entry.MaskedFlags(), false)
